@@ -20,7 +20,9 @@ RULE = ("part 1 (complete comparison of constants): every fixed catalog gate (h 
         "the exact amp_num; every logical state must pass heralds+post-selection, the amplitude matrix must equal the "
         "source unitary (own gate-list simulator; qiskit's Operator as second oracle) up to one complex factor, and "
         "(small cases) no non-logical passing output may carry amplitude. Non-trivial: at least one two-qubit gate or "
-        "a non-diagonal one-qubit gate; distinct by gate list + flag.")
+        "a non-diagonal one-qubit gate; distinct by gate list + flag. Every exact request is cost-bounded before it is "
+        "sent (4^q n! n per request, total budget, runner timeout, wall-clock deadline); circuits beyond the bound go "
+        "through the implementation's SLOS amplitudes instead (conv.route=slos) or are skipped (conv.route=skipped).")
 TRUSTED = ["model: coq/Model/Catalog.v, CatalogX.v, coq/Lib/Quad.v (hand-written component lists; tied by the complete "
            "constant comparison of this stream)",
            "numeric evaluation of tower elements in the driver (ring homomorphism into C: generator j = positive square "
@@ -32,11 +34,11 @@ ASSUMPTIONS = ["floating-point rounding not modelled: implementation matrices ar
                "converters: per-instance validation, no general theorem (composition of post-processed gates is not "
                "modular); optimizer-fitted generic one-qubit gates (e.g. qiskit sx) are outside the generated gate set",
                "perm(I + a J_n) = 1 + a^n is proved for n = 2, 3, 4 only; other n are covered per instance"]
-EXPLANATION = ("Open findings are re-found on every run: (1) Experiment._compose_experiment re-expresses the added "
-               "processor's post-selection wrongly for non-monotone mode maps, so QiskitConverter on 3 qubits with "
-               "cx(2,1) yields a post-selection no logical state passes; (2) label_cnots_in_gate_sequence looks at CNOT "
-               "pairs only, so a CNOT followed by a CZ on the same pair (or re-paired through a SWAP) is made post-processed "
-               "and the logical action is wrong.")
+EXPLANATION = ("Two converter defects found by this check are repaired in /repo (c0ab6b50: post-selection transfer for "
+               "non-monotone mode maps in Experiment._compose_experiment; 8dc2ac38: no post-processed CNOT when CZ/CSIGN/SWAP "
+               "gates are present); their witnesses stay in the corpus as regression guards. Every exact-model request is "
+               "bounded beforehand (4^q n! n); larger converted circuits are checked per instance with the implementation's "
+               "own SLOS amplitudes (histogram conv.route=slos) or skipped (conv.route=skipped).")
 
 K40 = 1 << 40
 FIXED = [("h", 0), ("x", 1), ("y", 2), ("z", 3), ("s", 4), ("sdag", 5), ("t", 6), ("tdag", 7),
@@ -142,12 +144,13 @@ def proportional(A, U, tol):
     return dev <= tol, lam, dev
 
 
-def model_logical(ctx, items, leak):
-    """items: (m, U complex, heralds dict, ps tree, q) -> [(A[b'][b] complex, passes list, leaks)]"""
+def model_logical(ctx, items, leak, timeout=600):
+    """items: (m, U complex, heralds dict, ps tree, q) -> [(A[b'][b] complex, passes list, leaks)].
+    Raises subprocess.TimeoutExpired when the runner exceeds `timeout` seconds (callers bound the cost beforehand)."""
     reqs = []
     for m, U, her, pst, q in items:
         reqs.append((2001, [m, grid(U), [[k, v] for k, v in sorted(her.items())], pst, q, 1 if leak else 0]))
-    outs = ctx.model.run(reqs)
+    outs = ctx.model.run(reqs, timeout=timeout)
     res = []
     for (m, U, her, pst, q), out in zip(items, outs):
         n = q + sum(her.values())
@@ -296,11 +299,44 @@ def convert(fw, src, ups):
 
 
 def cost(q, n):
+    """work of the exact logical amplitude matrix: 4^q permanents of size n by Laplace expansion (n! n products of
+    integers that grow to 40 n bits).  Calibration: about 2.5e5 units per second in the extracted runner."""
     return (4 ** q) * math.factorial(n) * n
 
 
-def evaluate(ctx, fw, nq, gates, ups, leak_budget=2e5):
-    """-> (signature or None, details). Runs the real converter and the exact model."""
+class Budget:
+    """cost accounting of the exact-model requests of one run: one request may not exceed `per_request`, all
+    requests together may not exceed `total`; what does not fit is routed to the cheaper per-instance check."""
+
+    def __init__(self, per_request, total, timeout, deadline=None):
+        self.per_request, self.total, self.timeout, self.spent = per_request, total, timeout, 0.0
+        self.deadline = deadline        # time.time() after which no exact request is sent any more (loaded machine)
+
+    def take(self, c):
+        import time
+        if c > self.per_request or self.spent + c > self.total:
+            return False
+        if self.deadline is not None and time.time() > self.deadline:
+            return False
+        self.spent += c
+        return True
+
+
+SHRINK_BUDGET = Budget(3e6, float("inf"), 60)
+
+
+def slos_feasible(m, n):
+    return n <= 10 and math.comb(m + n - 1, n) <= 400000
+
+
+def evaluate(ctx, fw, nq, gates, ups, leak_budget=2e5, budget=None):
+    """-> (signature or None, details). Runs the real converter; the logical action goes through the exact model when
+    the request fits the budget (bounded BEFORE it is sent, from qubits and photons), otherwise through the cheaper
+    per-instance route: model for the heralds/post-selection of logical states, the implementation's own SLOS
+    amplitudes for the matrix (counted in the histogram), or is skipped when even that is too large."""
+    import subprocess
+    import numpy as np
+    budget = budget or SHRINK_BUDGET
     src = build_source(fw, nq, gates)
     try:
         p = convert(fw, src, ups)
@@ -315,21 +351,40 @@ def evaluate(ctx, fw, nq, gates, ups, leak_budget=2e5):
     if any(k < 2 * nq for k in her):
         return f"converter-herald-on-data-mode-{fw}", {"heralds": her}
     info = {"m": m, "heralds": her, "postselect": pst_s, "photons": n}
-    nonlog = math.comb(2 * nq + nq - 1, nq) - (1 << nq)
-    leak = (1 << nq) * nonlog * math.factorial(n) * n <= leak_budget
-    (A, passes, leaks), = model_logical(ctx, [(m, U, her, pst, nq)], leak)
-    info["leak_checked"] = leak
+    c = cost(nq, n)
+    A = passes = None
+    leaks = []
+    if budget.take(c):
+        nonlog = math.comb(2 * nq + nq - 1, nq) - (1 << nq)
+        leak = (1 << nq) * nonlog * math.factorial(n) * n <= leak_budget
+        try:
+            (A, passes, leaks), = model_logical(ctx, [(m, U, her, pst, nq)], leak, timeout=budget.timeout)
+            info["route"], info["leak_checked"] = "exact", leak
+        except subprocess.TimeoutExpired:
+            # a harness limitation, not a verdict on the implementation
+            ctx.count("conv.model-timeout")
+            ctx.notes.append(f"model request timed out after {budget.timeout}s (q={nq}, photons={n}); routed to the SLOS check")
+    if A is None:
+        passes = [bool(x) for x in ctx.model.run([(2004, [m, [[k, v] for k, v in sorted(her.items())], pst, nq])], timeout=60)[0]]
+        if slos_feasible(m, n):
+            A = impl_logical(np.array(U), m, nq, her)
+            info["route"], info["leak_checked"] = "slos", False
+        else:
+            info["route"] = "skipped"
+    ctx.count("conv.route=" + info["route"])
     Us = src_unitary(nq, canon_gates(gates)).tolist()
     has_far_cx = any(nm == "cx" and (qs[1] != qs[0] + 1) for nm, qs, _ in gates)
     if not all(passes):
         info["logical_states_rejected"] = [b for b, ok in enumerate(passes) if not ok]
         sig = "converter-postselect-remap-nonmonotone" if (ups and has_far_cx) else f"converter-postselect-rejects-logical-{fw}"
         return sig, info
-    ok, lam, dev = proportional(A, Us, 1e-7)
+    if A is None:
+        return None, info
+    ok, lam, dev = proportional(A, Us, 1e-7 if info["route"] == "exact" else 1e-6)
     info["factor"] = abs(lam)
     info["deviation"] = dev
     if not ok:
-        # root-cause attribution of the known finding: the choice of post-processed CNOTs looks at CNOT pairs only;
+        # root-cause attribution of the (repaired) finding: the choice of post-processed CNOTs looked at CNOT pairs only;
         # claimed only when the circuit has a CNOT plus a CZ or SWAP and its all-heralded conversion is right
         names = {nm for nm, _, _ in gates}
         sig = f"converter-logical-action-{fw}"
@@ -351,7 +406,7 @@ def heralded_conversion_ok(fw, nq, gates, Us):
     try:
         p = convert(fw, build_source(fw, nq, gates), False)
         her = {int(k): int(v) for k, v in p.heralds.items()}
-        if nq + sum(her.values()) > 11:
+        if not slos_feasible(p.circuit_size, nq + sum(her.values())):
             return False
         A = impl_logical(np.array(p.linear_circuit().compute_unitary()), p.circuit_size, nq, her)
         return proportional(A, Us, 1e-6)[0]
@@ -359,13 +414,14 @@ def heralded_conversion_ok(fw, nq, gates, Us):
         return False
 
 
-def shrink(ctx, fw, nq, gates, ups, sig):
+def shrink(ctx, fw, nq, gates, ups, sig, max_evals=40):
     gates = list(gates)
-    changed = True
-    while changed and len(gates) > 1:
+    changed, evals = True, 0
+    while changed and len(gates) > 1 and evals < max_evals:
         changed = False
         for i in range(len(gates)):
             g2 = gates[:i] + gates[i + 1:]
+            evals += 1
             try:
                 s2, _ = evaluate(ctx, fw, nq, g2, ups, leak_budget=0)
             except Exception:
@@ -389,7 +445,7 @@ def run(ctx):
     rng = ctx.rng
 
     # ---------------------------------------------------------------- 1a. fixed gates: complete comparison of constants
-    outs = ctx.model.run([(2000, gid) for _, gid in FIXED], jobs=1)
+    outs = ctx.model.run([(2000, gid) for _, gid in FIXED], jobs=1, timeout=600)
     for (name, gid), out in zip(FIXED, outs):
         m, q, her, pst, gens, Uc, fc, Gc, Ac, verdict = out
         g = tower_eval(gens)
@@ -464,7 +520,7 @@ def run(ctx):
         pst = ps_tree(str(p.post_select_fn))
         items.append((p.circuit_size, U, her, pst, n))
         metas.append((name, n, al, p, U))
-    res = model_logical(ctx, items, True)
+    res = model_logical(ctx, items, True, timeout=900)
     blocks = ctx.model.run([(2003, [n, QI(0, 0)]) for _, n, _, _, _ in metas], jobs=1)
     for (name, n, al, p, U), (A, passes, leaks), blk in zip(metas, res, blocks):
         N = 1 << n
@@ -515,8 +571,10 @@ def run(ctx):
                        ("qiskit", 2, [("h", [0], None), ("cx", [0, 1], None), ("h", [0], None), ("cz", [0, 1], None)], False),
                        ("qiskit", 3, [("h", [0], None), ("cx", [0, 2], None), ("h", [0], None)], True),
                        ("qiskit", 3, [("h", [0], None), ("cx", [0, 1], None), ("swap", [1, 2], None), ("cx", [0, 2], None)], True)]
+    import time
     n_rand = ctx.n(96, 500)
-    budget = 1.2e7 if ctx.quick() else 5e7
+    # exact-model budget: per request, in total, runner timeout per request, wall-clock deadline for exact requests
+    budget = Budget(3e6, 4e7, 60, time.time() + 75) if ctx.quick() else Budget(2.5e7, 3e8, 600, time.time() + 2400)
     cases = list(fixed_cases)
     tries = 0
     while len(cases) < len(fixed_cases) + n_rand and avail and tries < 50 * n_rand:
@@ -525,16 +583,19 @@ def run(ctx):
         nq = rng.choice([2, 3, 3, 3, 4])
         ups = rng.chance(1, 2)
         gates = rand_circuit(rng, fw, nq, rng.rint(2, 8), max2=3)
-        # photon budget of the exact permanent: heralded gates carry two ancilla photons each
-        n2h = sum(1 for nm, _, _ in gates if nm == "cz") + (0 if ups else sum(1 for nm, _, _ in gates if nm == "cx"))
-        if cost(nq, nq + 2 * n2h) > budget:
+        # predicted photon number (heralded gates carry two ancilla photons each; since 8dc2ac38 every CNOT is
+        # heralded as soon as a CZ or SWAP is present): beyond the SLOS route nothing could be checked
+        names = {nm for nm, _, _ in gates}
+        all_her = (not ups) or bool(names & {"cz", "swap"})
+        n2h = sum(1 for nm, _, _ in gates if nm == "cz") + (sum(1 for nm, _, _ in gates if nm == "cx") if all_her else 0)
+        if nq + 2 * n2h > (9 if ctx.quick() else 10):
             ctx.count("generated-but-too-large")
             continue
         cases.append((fw, nq, gates, ups))
     second_oracle = 0
     for fw, nq, gates, ups in cases:
         nontriv = any(len(qs) == 2 or nm in ("h", "rx", "ry", "x", "y", "x90", "mx90", "y90", "my90") for nm, qs, _ in gates)
-        sig, info = evaluate(ctx, fw, nq, gates, ups)
+        sig, info = evaluate(ctx, fw, nq, gates, ups, budget=budget)
         case = dict(show(fw, nq, gates, ups), **{k: (v if not isinstance(v, dict) else str(v)) for k, v in info.items()})
         ctx.case(["conv", fw, nq, [[nm, qs, par] for nm, qs, par in gates], ups], nontriv, case)
         ctx.count(f"conv.{fw}.ups={ups}")
@@ -558,7 +619,8 @@ def run(ctx):
                      expected="every logical state passes heralds+post-selection and A = lam * U_source",
                      observed=str({k: info2.get(k) for k in ("postselect", "heralds", "logical_states_rejected", "deviation", "factor", "leaks")}))
     ctx.streams["converters: " + ", ".join(avail)] = len(cases)
-    ctx.log(f"{len(cases)} converted circuits validated")
+    ctx.log(f"{len(cases)} converted circuits validated (exact-model cost spent {budget.spent:.3g} of {budget.total:.3g})")
+    ctx.hist["conv.exact-cost-spent"] = int(budget.spent)
     ctx.hist["qiskit-operator-second-oracle"] = second_oracle
 
     # ---------------------------------------------------------------- vm_compute cross-check of the extraction
